@@ -53,6 +53,15 @@ pub fn pre_wake(fd: i32, is_send: bool) {
     sim::note_wake_call();
     sim::ev_pipe_release();
     unsafe {
+        // the descriptor must still be the action's: a wake-up on a number that is closed means
+        // the write end was released while an action that uses it is still registered or running
+        if libc::fcntl(fd, libc::F_GETFD) == -1 && *libc::__errno_location() == libc::EBADF {
+            let _g = sim::ShimGuard::new();
+            let msg = format!("a signal delivery writes its wake-up to descriptor {} which is closed: the self-pipe's write end was released before the action using it was removed (the number may be reused by an unrelated descriptor at any moment)", fd);
+            sim::report("C13", "wake-on-closed-descriptor", &msg, false);
+            sim::report("C01", "delivery-uses-released-descriptor", &msg, false);
+            sim::report("C12", "delivery-uses-released-descriptor", &msg, false);
+        }
         let mut p = libc::pollfd { fd, events: libc::POLLOUT, revents: 0 };
         let r = libc::poll(&mut p, 1, 0);
         let writable = r > 0 && (p.revents & libc::POLLOUT) != 0;
